@@ -5,7 +5,8 @@
 //                                                 <selmask> <n> w0 w1 ... w(n-1)        (decimal)
 //                                              selmask bit0 mdc, 1 tof, 2 emc, 3 muc, 4 trg, 5 ef; 0 = empty list
 //                                              (py_read_bes_raw then applies its default selection); bit 6 adds the
-//                                              invalid name "xyz".
+//                                              invalid name "xyz"; bits 8..11: how the words are handed over (0 a
+//                                              C-contiguous uint32 array, 1..6 see form_array).
 //                                              one answer line per case:
 //                                                 OK <json>        arrays returned
 //                                                 EXC <what()>     C++ exception (= Python exception through pybind11)
@@ -111,18 +112,59 @@ static py::array_t<uint32_t> guarded_array( const std::vector<uint32_t>& w ) {
     }
     uint32_t* p = (uint32_t*)( (char*)base + rw - bytes );
     if ( bytes ) memcpy( p, w.data(), bytes );
-    py::array_t<uint32_t> r;
-    r.own = std::shared_ptr<uint32_t[]>( p, []( uint32_t* ) {} );
-    r.n_  = w.size();
-    return r;
+    return py::array_t<uint32_t>::adopt( std::shared_ptr<void>( (void*)p, []( void* ) {} ), p, w.size() );
+}
+
+// the same words handed over the way NumPy can hand them over (forms 1..6); every form must decode exactly as form 0
+//   1 stride-2 view of a longer array   2 int32 items with the same bits   3 negative-stride view   4 uint64 items   5 big-endian
+//   uint32 items   6 float64 items.   Exact-size heap blocks: ASan sees reads outside them and reads after their release.
+static py::array form_array( const std::vector<uint32_t>& w, int form ) {
+    size_t n = w.size();
+    if ( form == 1 )
+    {
+        std::shared_ptr<uint32_t[]> b( new uint32_t[2 * n + 1] );
+        for ( size_t i = 0; i < 2 * n + 1; i++ ) b[i] = 0xdeadbeefu;
+        for ( size_t i = 0; i < n; i++ ) b[2 * i] = w[i];
+        return py::array::view( b, b.get(), n, 4, 8, "u4" );
+    }
+    if ( form == 3 )
+    {
+        std::shared_ptr<uint32_t[]> b( new uint32_t[n + 1] );
+        for ( size_t i = 0; i < n; i++ ) b[n - 1 - i] = w[i];
+        return py::array::view( b, b.get() + ( n ? n - 1 : 0 ), n, 4, -4, "u4" );
+    }
+    if ( form == 4 || form == 6 )
+    {
+        std::shared_ptr<uint64_t[]> b( new uint64_t[n + 1] );
+        for ( size_t i = 0; i < n; i++ )
+        {
+            if ( form == 4 ) b[i] = w[i];
+            else
+            {
+                double d = (double)w[i];
+                memcpy( &b[i], &d, 8 );
+            }
+        }
+        return py::array::view( b, b.get(), n, 8, 8, form == 4 ? "u8" : "f8" );
+    }
+    std::shared_ptr<uint32_t[]> b( new uint32_t[n + 1] );
+    for ( size_t i = 0; i < n; i++ ) b[i] = form == 5 ? __builtin_bswap32( w[i] ) : w[i];
+    return py::array::view( b, b.get(), n, 4, 4, form == 2 ? "i4" : form == 5 ? ">u4" : "u4" );
 }
 
 static std::string run_one( const std::vector<uint32_t>& w, unsigned mask, bool guarded ) {
     std::string out;
     try
     {
-        auto arr = guarded ? guarded_array( w ) : py::array_t<uint32_t>::from_vector( w );
-        auto r   = py_read_bes_raw( arr, sel_of_mask( mask ) );
+        int form = ( mask >> 8 ) & 15;        // bits 8..11 of the selection mask: how the words are handed over
+        mask &= 255;
+        py::dict r;
+        if ( form ) r = py_read_bes_raw( form_array( w, form ), sel_of_mask( mask ) );
+        else
+        {
+            auto arr = guarded ? guarded_array( w ) : py::array_t<uint32_t>::from_vector( w );
+            r        = py_read_bes_raw( arr, sel_of_mask( mask ) );
+        }
         out      = "OK ";
         dump( r.p, out );
     } catch ( std::exception& e )
